@@ -296,14 +296,13 @@ def replay_in_coq(ctx, gen, obs):
 # filter count only); DENY ones make seccomp(2) itself fail for the thread from then on. Histories that use either are
 # judged by the direct rules only (the kernel model does not run filters on the loader's own system calls).
 SILENT = ("nonames", "allowall", "denyseccomp", "denyseccomp38", "denyprctl")
-VALID = ("ok", "big") + SILENT
+VALID = ("ok", "big", "mid", "midnames") + SILENT
 
 
 def uses_silent(h):
     """... or loads one filter index more than once (the replay identifies a filter by its index)"""
     loads = [s["op"] for s in h["steps"].values() if s["op"] and s["op"][0] == "load"]
-    return (any(op[5] in SILENT for op in loads) or len(set(op[1] for op in loads)) != len(loads)
-            or sum(1 for op in loads if op[5] == "big") > 2)      # ... or fills the thread's filter chain (the model has no chain limit)
+    return any(op[5] in SILENT for op in loads) or len(set(op[1] for op in loads)) != len(loads)
 
 
 def load_steps(h):
@@ -512,9 +511,18 @@ def gen_C09(rng, n):
         "actor 0;load 1 a0 0 0 denyseccomp38;supp a0;load 2 a0 0 1 ok;load 3 a0 1 3 ok;supp a0;probe",
         # prctl(2) answered with an error by an earlier filter: a load that asks for the bit fails, one that does not succeeds
         "actor 0;load 1 a0 0 0 denyprctl;load 2 a0 1 0 ok;load 3 a0 0 0 ok;load 4 a0 1 1 ok;probe",
-        # the thread's filter chain filled up to the kernel's limit (32768 instructions, 4 extra per filter): ENOMEM is an error
-        "actor 0;actor 1;load 1 a0 1 0 big;load 2 a0 0 0 big;load 3 a0 0 0 big;load 4 a0 0 0 big;load 5 a0 0 0 big;load 6 a0 0 0 big;load 7 a0 0 0 big;load 8 a0 0 0 big;load 9 a0 0 0 big;load 10 a0 0 1 big;load 11 a0 0 3 big;load 12 a0 0 0 ok;probe",
+        # the thread's filter chain filled up to the kernel's limit in steps of decreasing size (the limit counts the kernel's
+        # internal instructions, 4 extra per filter: KernelState.internal_len): ENOMEM is an error, and the model places it
+        # at the same load as the kernel
+        "actor 0;" + ";".join("load %d a0 %d 0 big" % (i, 1 if i == 1 else 0) for i in range(1, 8)) + ";" +
+        ";".join("load %d a0 0 0 mid" % i for i in range(8, 17)) + ";" + ";".join("load %d a0 0 0 ok" % i for i in range(17, 30)) + ";probe",
+        "actor 0;actor 1;" + ";".join("load %d a0 1 1 midnames" % i for i in range(1, 6)) + ";" + ";".join("load %d a0 0 0 big" % i for i in range(6, 13)) + ";" +
+        ";".join("load %d a1 0 1 mid" % i for i in range(13, 20)) + ";" + ";".join("load %d a0 0 %d ok" % (i, i % 4) for i in range(20, 34)) + ";probe",
     ]
+    if n > 100:
+        forced.append("actor 0;actor 1;load 1 a0 1 0 big;load 2 a0 0 0 big;load 3 a0 0 0 big;load 4 a0 0 0 big;load 5 a0 0 0 big;load 6 a0 0 0 big;load 7 a0 0 0 big;load 8 a0 0 0 big;load 9 a0 0 0 big;load 10 a0 0 1 big;load 11 a0 0 3 big;load 12 a0 0 0 ok;probe")
+    else:
+        forced = [h for h in forced if "midnames" not in h]     # the second chain-filling history: thorough tier only
     for t in forced:
         hs.append(t)
     while len(hs) < n:
@@ -806,7 +814,7 @@ def check_C09(ctx, replay=None):
     rng = random.Random(ctx.seed * 1000003 + 9)
     n = 36 if ctx.tier == "quick" else 240
     run_check(ctx, "C09", "C09.v", C09_THEOREMS, gen_C09(rng, n), replay,
-              "load histories from the seeded generator plus sixteen forced ones (refused thread-sync by a divergent / an ahead thread, unknown flag bits 0x80 / 0x40 / illegal combinations, a 5000-instruction program, invalid policies, dropped privilege, listener flag; valid policies that change no decision - no names, all allow -; the same filter loaded again after a refusal; Supported() on a thread whose filter answers seccomp(2) with EPERM / ENOSYS; prctl(2) answered with EPERM; the filter chain filled to the kernel's ENOMEM limit), each executed by the real LoadFilter/Supported in a fresh child process (loads from locked OS threads and from ordinary goroutines) and replayed on the model inside Coq; every step compares result class, per-task Seccomp/Seccomp_filters and the set of filters answering the probe syscall; non-trivial = distinct history containing a kernel refusal (EINVAL/EACCES/thread-sync) or a successful thread-sync with several tasks")
+              "load histories from the seeded generator plus sixteen forced ones (refused thread-sync by a divergent / an ahead thread, unknown flag bits 0x80 / 0x40 / illegal combinations, a 5000-instruction program, invalid policies, dropped privilege, listener flag; valid policies that change no decision - no names, all allow -; the same filter loaded again after a refusal; Supported() on a thread whose filter answers seccomp(2) with EPERM / ENOSYS; prctl(2) answered with EPERM; the filter chain filled to the kernel's ENOMEM limit with filters of about 4700, 600 and 20 internal instructions, so that the model's limit arithmetic (KernelState.internal_len) is compared with the kernel's to within twenty instructions), each executed by the real LoadFilter/Supported in a fresh child process (loads from locked OS threads and from ordinary goroutines) and replayed on the model inside Coq; every step compares result class, per-task Seccomp/Seccomp_filters and the set of filters answering the probe syscall; non-trivial = distinct history containing a kernel refusal (EINVAL/EACCES/thread-sync) or a successful thread-sync with several tasks")
 
 
 def check_C10(ctx, replay=None):
